@@ -10,8 +10,11 @@ import (
 	"fmt"
 	"math/rand"
 	"reflect"
+	"runtime"
+	"strconv"
 	"strings"
 	"sync"
+	"sync/atomic"
 	"testing"
 	"time"
 	"unsafe"
@@ -24,6 +27,7 @@ import (
 	"github.com/gotid/god/lib/store/cache"
 	"github.com/gotid/god/lib/store/redis"
 	"github.com/gotid/god/lib/store/sqlx"
+	"github.com/gotid/god/lib/syncx"
 	"github.com/gotid/god/lib/timex"
 )
 
@@ -47,10 +51,13 @@ type verifOp struct {
 }
 
 type verifCase struct {
-	Level    string    `json:"level"` // sqlc
+	Level    string    `json:"level"` // sqlc | conc
 	Expire   int       `json:"expire"`
 	NfExpire int       `json:"nfexpire"`
 	Ops      []verifOp `json:"ops"`
+	// level conc: one call per thread, executed under a forced schedule
+	Threads []verifThreadOp `json:"threads"`
+	Sched   [][]any         `json:"sched"` // ["t",i] start thread i | ["o",g] open gate g | ["c",i] cancel ctx of thread i
 }
 
 type verifRow struct {
@@ -112,6 +119,9 @@ func verifSetup() {
 		verifMu.Lock()
 		g, w, d := verifG, verifS, verifD
 		verifMu.Unlock()
+		if e := verifConcGet(); e != nil {
+			e.hook(strings.ToUpper(cmd), args)
+		}
 		switch strings.ToUpper(cmd) {
 		case "GET":
 			if g {
@@ -329,6 +339,9 @@ func TestVerifDriver(t *testing.T) {
 		if err := json.Unmarshal(raw, &c); err != nil {
 			return map[string]any{"error": err.Error()}
 		}
+		if c.Level == "conc" {
+			return verifRunConc(c)
+		}
 		var res any
 		for try := 0; try < 4; try++ {
 			var slow bool
@@ -338,4 +351,528 @@ func TestVerifDriver(t *testing.T) {
 		}
 		return res
 	})
+}
+
+// ---------------------------------------------------------------- concurrent cases (level conc)
+//
+// Every thread performs one call: a reader CachedConn.QueryRowCtx(key) with its own context, or a writer
+// CachedConn.ExecCtx(write, key). User code and Redis commands can be held at gates:
+//   reader: ga inside the query function before the database read, gb after it, gc the SET in Redis;
+//   writer: ga inside the exec function before the database write, gb after it, gc the DEL in Redis.
+// A controller executes the schedule label by label and after each label waits until nothing can move:
+// every started thread has returned, is parked at a gate, or is a single-flight follower blocked in
+// WaitGroup.Wait (flags set by a wrapper around the package's SingleFlight + goroutine state).
+
+type verifThreadOp struct {
+	W   bool `json:"w"`
+	Key int  `json:"key"`
+	Val int  `json:"val"`
+	Ga  int  `json:"ga"`
+	Gb  int  `json:"gb"`
+	Gc  int  `json:"gc"`
+}
+
+type verifThread struct {
+	id        int
+	op        verifThreadOp
+	start     chan struct{}
+	ctx       context.Context
+	cancel    context.CancelFunc
+	goid      int64
+	started   int32
+	done      int32
+	parked    int32 // gate the thread is parked at (0: none)
+	parkedCtx int32 // that wait also ends when the thread's context is cancelled
+	inDoEx    int32
+	fnActive  int32
+	res       any
+}
+
+type verifConcEnv struct {
+	mu       sync.Mutex
+	prefix   string
+	threads  []*verifThread
+	gates    map[int]chan struct{}
+	open     map[int]bool
+	acting   int
+	events   [][]int // kind, thread, key, value: 0 QBegin 1 QEnd 2 Set 3 Del 4 Write 5 Ret 6 Start
+	db       map[int]int
+	inflight map[int]int
+	maxfl    map[int]int
+	progress int64
+	aborted  bool
+}
+
+var (
+	verifConc   atomic.Value // *verifConcEnv or nil interface holder
+	verifFlight = &verifSF{inner: syncx.NewSingleFlight()}
+)
+
+func verifConcGet() *verifConcEnv {
+	if e, ok := verifConc.Load().(*verifConcEnv); ok {
+		return e
+	}
+	return nil
+}
+
+func verifGoid() int64 {
+	var buf [64]byte
+	n := runtime.Stack(buf[:], false)
+	f := strings.Fields(string(buf[:n]))
+	if len(f) < 2 {
+		return -1
+	}
+	id, _ := strconv.ParseInt(f[1], 10, 64)
+	return id
+}
+
+func (e *verifConcEnv) self() *verifThread {
+	id := verifGoid()
+	for _, t := range e.threads {
+		if atomic.LoadInt64(&t.goid) == id {
+			return t
+		}
+	}
+	return nil
+}
+
+func (e *verifConcEnv) log(kind, t, k, v int) {
+	e.mu.Lock()
+	e.events = append(e.events, []int{kind, t, k, v})
+	e.progress++
+	e.mu.Unlock()
+}
+
+func (e *verifConcEnv) gate(g int) chan struct{} {
+	e.mu.Lock()
+	defer e.mu.Unlock()
+	ch, ok := e.gates[g]
+	if !ok {
+		ch = make(chan struct{})
+		e.gates[g] = ch
+	}
+	return ch
+}
+
+// pass waits at gate g on behalf of thread t; it reports false when ctx was cancelled instead.
+func (e *verifConcEnv) pass(t *verifThread, g int, ctx context.Context) bool {
+	if ctx != nil && ctx.Err() != nil {
+		return false
+	}
+	if g == 0 {
+		return true
+	}
+	ch := e.gate(g)
+	select {
+	case <-ch:
+		return true
+	default:
+	}
+	if ctx != nil {
+		atomic.StoreInt32(&t.parkedCtx, 1)
+	} else {
+		atomic.StoreInt32(&t.parkedCtx, 0)
+	}
+	atomic.StoreInt32(&t.parked, int32(g))
+	defer atomic.StoreInt32(&t.parked, 0)
+	if ctx == nil {
+		<-ch
+		return true
+	}
+	select {
+	case <-ch:
+		return true
+	case <-ctx.Done():
+		return false
+	}
+}
+
+func (e *verifConcEnv) keyIndex(key string) int {
+	if !strings.HasPrefix(key, e.prefix+"pk:") {
+		return -1
+	}
+	n, err := strconv.Atoi(key[len(e.prefix)+3:])
+	if err != nil {
+		return -1
+	}
+	return n
+}
+
+// hook runs in the connection goroutine of miniredis before a command executes
+func (e *verifConcEnv) hook(cmd string, args []string) {
+	if len(args) == 0 || (cmd != "SET" && cmd != "DEL") {
+		return
+	}
+	e.mu.Lock()
+	a := e.acting
+	e.mu.Unlock()
+	if a < 0 || a >= len(e.threads) {
+		return
+	}
+	t := e.threads[a]
+	if cmd == "SET" {
+		k := e.keyIndex(args[0])
+		if k < 0 {
+			return
+		}
+		e.pass(t, t.op.Gc, nil)
+		v := -1
+		if len(args) > 1 {
+			if args[1] == "*" {
+				v = 0
+			} else {
+				var row verifRow
+				if json.Unmarshal([]byte(args[1]), &row) == nil {
+					v = row.Val
+				}
+			}
+		}
+		e.log(2, a, k, v)
+		return
+	}
+	first := true
+	for _, key := range args {
+		k := e.keyIndex(key)
+		if k < 0 {
+			continue
+		}
+		if first {
+			e.pass(t, t.op.Gc, nil)
+			first = false
+		}
+		e.log(3, a, k, 0)
+	}
+}
+
+// SingleFlight wrapper: tells the controller which threads are inside DoEx and which execute fn
+type verifSF struct{ inner syncx.SingleFlight }
+
+func (f *verifSF) wrap(fn func() (any, error)) (*verifThread, func() (any, error)) {
+	var t *verifThread
+	if e := verifConcGet(); e != nil {
+		t = e.self()
+	}
+	if t == nil {
+		return nil, fn
+	}
+	return t, func() (any, error) {
+		atomic.StoreInt32(&t.fnActive, 1)
+		defer atomic.StoreInt32(&t.fnActive, 0)
+		return fn()
+	}
+}
+
+func (f *verifSF) Do(key string, fn func() (any, error)) (any, error) {
+	t, g := f.wrap(fn)
+	if t != nil {
+		atomic.StoreInt32(&t.inDoEx, 1)
+		defer atomic.StoreInt32(&t.inDoEx, 0)
+	}
+	return f.inner.Do(key, g)
+}
+
+func (f *verifSF) DoEx(key string, fn func() (any, error)) (any, bool, error) {
+	t, g := f.wrap(fn)
+	if t != nil {
+		atomic.StoreInt32(&t.inDoEx, 1)
+		defer atomic.StoreInt32(&t.inDoEx, 0)
+	}
+	return f.inner.DoEx(key, g)
+}
+
+func verifGoStates() map[int64]string {
+	buf := make([]byte, 1<<16)
+	for {
+		n := runtime.Stack(buf, true)
+		if n < len(buf) {
+			buf = buf[:n]
+			break
+		}
+		buf = make([]byte, 2*len(buf))
+	}
+	res := map[int64]string{}
+	for _, line := range strings.Split(string(buf), "\n") {
+		if !strings.HasPrefix(line, "goroutine ") {
+			continue
+		}
+		rest := line[len("goroutine "):]
+		sp := strings.IndexByte(rest, ' ')
+		lb := strings.IndexByte(rest, '[')
+		if sp < 0 || lb < 0 {
+			continue
+		}
+		id, err := strconv.ParseInt(rest[:sp], 10, 64)
+		if err != nil {
+			continue
+		}
+		st := rest[lb+1:]
+		if i := strings.IndexAny(st, ",]"); i >= 0 {
+			st = st[:i]
+		}
+		res[id] = st
+	}
+	return res
+}
+
+// quiesce: two identical observations, a yield apart, in which no started thread can move by itself
+func (e *verifConcEnv) quiesce() {
+	deadline := time.Now().Add(5 * time.Second)
+	observe := func() (string, bool) {
+		var sb strings.Builder
+		e.mu.Lock()
+		sb.WriteString(strconv.FormatInt(e.progress, 10))
+		e.mu.Unlock()
+		var states map[int64]string
+		for _, t := range e.threads {
+			if atomic.LoadInt32(&t.started) == 0 {
+				continue
+			}
+			if atomic.LoadInt32(&t.done) == 1 {
+				sb.WriteString(" d")
+				continue
+			}
+			if g := atomic.LoadInt32(&t.parked); g != 0 {
+				// parked at a gate that has been opened, or in a context-aware wait whose context has been
+				// cancelled: the goroutine has not been scheduled yet, but it will move
+				e.mu.Lock()
+				opened := e.open[int(g)]
+				e.mu.Unlock()
+				if opened || (atomic.LoadInt32(&t.parkedCtx) == 1 && t.ctx.Err() != nil) {
+					return "", false
+				}
+				sb.WriteString(" p" + strconv.Itoa(int(g)))
+				continue
+			}
+			if atomic.LoadInt32(&t.inDoEx) == 1 && atomic.LoadInt32(&t.fnActive) == 0 {
+				if states == nil {
+					states = verifGoStates()
+				}
+				st := states[atomic.LoadInt64(&t.goid)]
+				if strings.HasPrefix(st, "semacquire") || strings.HasPrefix(st, "sync.") {
+					sb.WriteString(" w")
+					continue
+				}
+			}
+			return "", false
+		}
+		return sb.String(), true
+	}
+	for {
+		if o1, ok := observe(); ok {
+			runtime.Gosched()
+			time.Sleep(100 * time.Microsecond)
+			if o2, ok2 := observe(); ok2 && o1 == o2 {
+				return
+			}
+		}
+		if time.Now().After(deadline) {
+			e.mu.Lock()
+			e.aborted = true
+			e.mu.Unlock()
+			return
+		}
+		runtime.Gosched()
+		time.Sleep(20 * time.Microsecond)
+	}
+}
+
+func verifRunConc(c verifCase) any {
+	verifOnce.Do(verifSetup)
+	verifCaseNo++
+	e := &verifConcEnv{prefix: fmt.Sprintf("k%d:", verifCaseNo), gates: map[int]chan struct{}{}, open: map[int]bool{},
+		acting: -1, db: map[int]int{}, inflight: map[int]int{}, maxfl: map[int]int{}}
+	verifSrv.FlushAll()
+	verifSetFaults(false, false, false)
+	saved := singleFlights
+	singleFlights = verifFlight
+	defer func() { singleFlights = saved }()
+	node := cache.NewNode(redis.New(verifSrv.Addr()), singleFlights, stats, sql.ErrNoRows,
+		cache.WithExpire(time.Duration(c.Expire)*time.Second), cache.WithNotFoundExpire(time.Duration(c.NfExpire)*time.Second))
+	cc := NewConnWithCache(nil, node)
+	keyName := func(k int) string { return fmt.Sprintf("%spk:%d", e.prefix, k) }
+
+	for i, op := range c.Threads {
+		ctx, cancel := context.WithCancel(context.Background())
+		e.threads = append(e.threads, &verifThread{id: i, op: op, start: make(chan struct{}), ctx: ctx, cancel: cancel})
+	}
+	verifConc.Store(e)
+	defer verifConc.Store((*verifConcEnv)(nil))
+	var wg sync.WaitGroup
+	for _, t := range e.threads {
+		t := t
+		wg.Add(1)
+		ready := make(chan struct{})
+		go func() {
+			defer wg.Done()
+			atomic.StoreInt64(&t.goid, verifGoid())
+			close(ready)
+			<-t.start
+			if atomic.LoadInt32(&t.started) == 0 {
+				return // never scheduled
+			}
+			k := t.op.Key
+			if t.op.W {
+				_, err := cc.ExecCtx(t.ctx, func(ctx context.Context, conn sqlx.Conn) (sql.Result, error) {
+					e.pass(t, t.op.Ga, nil)
+					e.mu.Lock()
+					if t.op.Val == 0 {
+						delete(e.db, k)
+					} else {
+						e.db[k] = t.op.Val
+					}
+					e.mu.Unlock()
+					e.log(4, t.id, k, t.op.Val)
+					e.pass(t, t.op.Gb, nil)
+					return nil, nil
+				}, keyName(k))
+				t.res = verifErr(err)
+			} else {
+				var row verifRow
+				err := cc.QueryRowCtx(t.ctx, &row, keyName(k), func(ctx context.Context, conn sqlx.Conn, v any) error {
+					e.mu.Lock()
+					e.inflight[k]++
+					if e.inflight[k] > e.maxfl[k] {
+						e.maxfl[k] = e.inflight[k]
+					}
+					e.mu.Unlock()
+					e.log(0, t.id, k, 0)
+					defer func() {
+						e.mu.Lock()
+						e.inflight[k]--
+						e.mu.Unlock()
+						e.log(1, t.id, k, 0)
+					}()
+					if !e.pass(t, t.op.Ga, ctx) {
+						return ctx.Err()
+					}
+					e.mu.Lock()
+					val, ok := e.db[k]
+					e.mu.Unlock()
+					if !e.pass(t, t.op.Gb, ctx) {
+						return ctx.Err()
+					}
+					if !ok {
+						return sqlx.ErrNotFound
+					}
+					*v.(*verifRow) = verifRow{ID: k, Ix: 0, Val: val}
+					return nil
+				})
+				switch {
+				case err == nil:
+					t.res = []any{"row", row.Val}
+				case errors.Is(err, context.Canceled):
+					t.res = "ctx"
+				default:
+					t.res = verifErr(err)
+				}
+			}
+			e.log(5, t.id, 0, 0)
+			atomic.StoreInt32(&t.done, 1)
+		}()
+		<-ready
+	}
+
+	for _, st := range c.Sched {
+		if e.aborted {
+			break
+		}
+		timex.VerifAdvance(11 * time.Second)
+		kind := st[0].(string)
+		v := int(st[1].(float64))
+		switch kind {
+		case "t":
+			if v >= 0 && v < len(e.threads) && atomic.LoadInt32(&e.threads[v].started) == 0 {
+				e.mu.Lock()
+				e.acting = v
+				e.mu.Unlock()
+				e.log(6, v, e.threads[v].op.Key, 0)
+				atomic.StoreInt32(&e.threads[v].started, 1)
+				close(e.threads[v].start)
+			}
+		case "o":
+			e.mu.Lock()
+			e.acting = v / 10 // gates of thread i are 10*i+1 .. 10*i+3
+			already := e.open[v]
+			e.open[v] = true
+			e.mu.Unlock()
+			if !already {
+				close(e.gate(v))
+			}
+		case "c":
+			if v >= 0 && v < len(e.threads) {
+				e.mu.Lock()
+				e.acting = v
+				e.mu.Unlock()
+				e.threads[v].cancel()
+			}
+		}
+		e.quiesce()
+	}
+	// release whatever is still held so that the goroutines end
+	e.mu.Lock()
+	aborted := e.aborted
+	e.mu.Unlock()
+	for _, t := range e.threads {
+		for _, g := range []int{t.op.Ga, t.op.Gb, t.op.Gc} {
+			if g != 0 {
+				e.mu.Lock()
+				already := e.open[g]
+				e.open[g] = true
+				e.mu.Unlock()
+				if !already {
+					close(e.gate(g))
+				}
+			}
+		}
+		if atomic.LoadInt32(&t.started) == 0 {
+			close(t.start)
+		}
+	}
+	finished := make(chan struct{})
+	go func() { wg.Wait(); close(finished) }()
+	select {
+	case <-finished:
+	case <-time.After(5 * time.Second):
+		aborted = true
+	}
+	for _, t := range e.threads {
+		t.cancel()
+	}
+	res := make([]any, len(e.threads))
+	for i, t := range e.threads {
+		res[i] = t.res
+	}
+	nk := 0
+	for _, t := range c.Threads {
+		if t.Key+1 > nk {
+			nk = t.Key + 1
+		}
+	}
+	cacheDump := make([]any, nk)
+	dbDump := make([]int, nk)
+	maxfl := make([]int, nk)
+	for k := 0; k < nk; k++ {
+		if verifSrv.Exists(keyName(k)) {
+			s, _ := verifSrv.Get(keyName(k))
+			if s == "*" {
+				cacheDump[k] = 0
+			} else {
+				var row verifRow
+				if json.Unmarshal([]byte(s), &row) == nil {
+					cacheDump[k] = row.Val
+				} else {
+					cacheDump[k] = -1
+				}
+			}
+		}
+		dbDump[k] = e.db[k]
+		maxfl[k] = e.maxfl[k]
+	}
+	e.mu.Lock()
+	events := e.events
+	e.mu.Unlock()
+	if events == nil {
+		events = [][]int{}
+	}
+	return map[string]any{"events": events, "res": res, "cache": cacheDump, "db": dbDump, "maxfl": maxfl, "aborted": aborted}
 }
